@@ -974,11 +974,14 @@ Qed.
 Lemma testbit_mask_of f n : N.testbit (mask_of f) n = f n && (n <? CC_ENUM_END).
 Proof.
   unfold mask_of. rewrite testbit_fold_setbit. rewrite N.bits_0. cbn [orb].
-  unfold CC_ENUM_END. cbn [N.to_nat Pos.to_nat Pos.iter_op Init.Nat.add seqN existsb N.succ Pos.succ].
+  change (seqN 0 (N.to_nat CC_ENUM_END)) with [0;1;2;3;4;5;6;7;8;9;10;11;12;13;14].
+  unfold CC_ENUM_END. cbn [existsb].
   destruct (n <? 15) eqn:E.
   - assert (H : n = 0 \/ n = 1 \/ n = 2 \/ n = 3 \/ n = 4 \/ n = 5 \/ n = 6 \/ n = 7 \/ n = 8 \/ n = 9 \/
                 n = 10 \/ n = 11 \/ n = 12 \/ n = 13 \/ n = 14) by lia.
-    repeat (destruct H as [H|H]; [subst n; cbn; destruct (f _); reflexivity|]). subst n; cbn; destruct (f _); reflexivity.
+    rewrite andb_true_r.
+    repeat (destruct H as [H|H]; [rewrite H; cbn [N.eqb Pos.eqb andb orb]; destruct (f _); reflexivity|]).
+    rewrite H; cbn [N.eqb Pos.eqb andb orb]; destruct (f _); reflexivity.
   - rewrite andb_false_r.
     repeat match goal with |- context [?k =? n] => replace (k =? n) with false by lia end. reflexivity.
 Qed.
@@ -1035,3 +1038,176 @@ Qed.
 (* C29 main theorem 1: parse = the first-match specification over the list elements *)
 Theorem cc_parse_exact v : cc_parse v = Some (spec_cc (list_items 44 v)).
 Proof. unfold cc_parse. rewrite cc_parse_from_fold_items. f_equal. apply fold_items_spec. Qed.
+
+(* ====================================================================== *)
+(* Corollaries: invalid numeric arguments, max-stale *)
+
+Definition strict_numeric (F : N) : Prop :=
+  F = CC_MAX_AGE \/ F = CC_S_MAXAGE \/ F = CC_MIN_FRESH \/ F = CC_STALE_IF_ERROR.
+
+Lemma d_num_range it v : d_num it = Some v -> (0 <= v < 2147483648)%Z.
+Proof.
+  unfold d_num. destruct (d_arg it) as [a|]; [|discriminate].
+  destruct (parse_int a) as [w|] eqn:E; [|discriminate].
+  destruct (w <? 0)%Z eqn:Ew; [discriminate|]. intros H. injection H as <-.
+  pose proof (parse_int_in_int_range a w E) as Hr. unfold two31 in Hr. lia.
+Qed.
+
+Theorem cc_invalid_numeric_absent v F st :
+  cc_parse v = Some st -> strict_numeric F ->
+  (forall it, In it (list_items 44 v) -> d_type it = F -> d_num it = None) ->
+  isSet st F = false /\ get_num st F = (-1)%Z.
+Proof.
+  intros Hp HF Hall. rewrite cc_parse_exact in Hp. injection Hp as <-.
+  set (its := list_items 44 v) in *.
+  assert (Hsel : forall it, In it its -> sel F it = false).
+  { intros it Hin. unfold sel. destruct (d_type it =? F) eqn:E; [|reflexivity]. cbn [andb].
+    assert (Et : d_type it = F) by lia. unfold eff. rewrite Et, (Hall it Hin Et).
+    destruct HF as [-> | [-> | [-> | ->]]]; reflexivity. }
+  assert (Hex : existsb (sel F) its = false).
+  { clear -Hsel. induction its as [|it its IH]; [reflexivity|]. cbn [existsb].
+    rewrite (Hsel it (or_introl eq_refl)), IH; [reflexivity|]. intros x Hx. apply Hsel. now right. }
+  assert (Hfind : find (sel F) its = None).
+  { clear -Hsel. induction its as [|it its IH]; [reflexivity|]. cbn [find].
+    rewrite (Hsel it (or_introl eq_refl)). apply IH. intros x Hx. apply Hsel. now right. }
+  split.
+  - unfold isSet, spec_cc. cbn [cmask]. rewrite testbit_mask_of. unfold spec_bit. now rewrite Hex.
+  - assert (G : get_num (spec_cc its) F = spec_num its F).
+    { destruct HF as [-> | [-> | [-> | ->]]]; reflexivity. }
+    rewrite G. unfold spec_num. now rewrite Hfind.
+Qed.
+
+(* max-stale: the first occurrence decides; an invalid argument means the valueless form *)
+Theorem cc_max_stale_first v st it :
+  cc_parse v = Some st ->
+  find (fun i => d_type i =? CC_MAX_STALE) (list_items 44 v) = Some it ->
+  isSet st CC_MAX_STALE = true /\
+  max_stale st = match d_num it with Some n => n | None => MAX_STALE_ANY end.
+Proof.
+  intros Hp Hf. rewrite cc_parse_exact in Hp. injection Hp as <-.
+  set (its := list_items 44 v) in *.
+  assert (Hs : forall i, sel CC_MAX_STALE i = (d_type i =? CC_MAX_STALE)).
+  { intros i. unfold sel. destruct (d_type i =? CC_MAX_STALE) eqn:E; [|reflexivity].
+    assert (Et : d_type i = CC_MAX_STALE) by lia. unfold eff. rewrite Et. reflexivity. }
+  assert (Hf' : find (sel CC_MAX_STALE) its = Some it).
+  { rewrite <- Hf. clear -Hs. induction its as [|i its IH]; [reflexivity|]. cbn [find]. now rewrite Hs, IH. }
+  split.
+  - unfold isSet, spec_cc. cbn [cmask]. rewrite testbit_mask_of. unfold spec_bit.
+    assert (existsb (sel CC_MAX_STALE) its = true) as ->; [|reflexivity].
+    apply existsb_exists. apply find_some in Hf'. exists it. exact Hf'.
+  - unfold spec_cc. cbn [max_stale]. unfold spec_num. rewrite Hf'. reflexivity.
+Qed.
+
+(* ====================================================================== *)
+(* httpHeaderParseQuotedString on plain quoted text; the two deviations from RFC quoted-string *)
+
+Lemma qd_run_all : forall X room rest, forallb qd_char X = true -> lenN X <= room ->
+  qd_char (hdz rest) = false -> qd_run room (X ++ rest) = (X, rest).
+Proof.
+  induction X as [|c X IH]; intros room rest HX Hr Hrest; cbn [app].
+  - destruct rest as [|r0 rr]; [reflexivity|]. cbn [qd_run hdz] in *. rewrite Hrest, andb_false_r. reflexivity.
+  - cbn [forallb] in HX. apply andb_prop in HX. destruct HX as [Hc HX]. cbn [lenN] in Hr.
+    cbn [qd_run]. replace (0 <? room) with true by lia. rewrite Hc. cbn [andb].
+    rewrite (IH (N.pred room) rest HX ltac:(lia) Hrest). reflexivity.
+Qed.
+
+Lemma qd_char_plain c : qd_char c = true ->
+  (c =? 34) = false /\ (c =? 13) = false /\ (c =? 10) = false /\ (c =? 92) = false /\ bad_ctl c = false.
+Proof. unfold qd_char, bad_ctl. lia. Qed.
+
+(* any window that reaches the closing quote reads exactly the text between the quotes *)
+Lemma pqs_plain X junk len :
+  forallb qd_char X = true -> lenN X + 2 <= len ->
+  parse_quoted_string (34 :: X ++ 34 :: junk) len = QOk X.
+Proof.
+  intros HX Hlen. unfold parse_quoted_string. cbn [hdz tlz N.eqb Pos.eqb negb].
+  cbn [length pqs_loop].
+  destruct X as [|c X'].
+  - cbn [app]. unfold pqs_iter. cbn [hdz N.eqb Pos.eqb negb andb]. reflexivity.
+  - cbn [forallb] in HX. pose proof HX as HX0. apply andb_prop in HX. destruct HX as [Hc HX'].
+    destruct (qd_char_plain c Hc) as (E34 & E13 & E10 & E92 & Eb).
+    cbn [app]. unfold pqs_iter at 1. cbn [hdz tlz]. rewrite E34, E13. cbn [negb andb].
+    replace (1 <? len) with true by (cbn [lenN] in Hlen; lia).
+    rewrite E10, E92. cbn [andb].
+    change (c :: X' ++ 34 :: junk) with ((c :: X') ++ 34 :: junk).
+    rewrite (qd_run_all (c :: X') (len - 1) (34 :: junk) HX0 ltac:(cbn [lenN] in *; lia) eq_refl).
+    cbn [hdz]. change (bad_ctl 34) with false. cbv iota.
+    destruct (length ((c :: X') ++ 34 :: junk)) as [|n] eqn:El.
+    { apply (f_equal N.of_nat) in El. rewrite <- lenN_length, lenN_app in El. cbn [lenN] in El. lia. }
+    cbn [pqs_loop]. unfold pqs_iter. cbn [hdz N.eqb Pos.eqb negb andb]. reflexivity.
+Qed.
+
+(* RFC 9110 5.6.4 quoted-string: DQUOTE *( qdtext / quoted-pair ) DQUOTE, quoted-pair unescaped *)
+Definition rfc_qdtext (c : N) : bool :=
+  (c =? 9) || (c =? 32) || (c =? 33) || ((35 <=? c) && (c <=? 91)) || ((93 <=? c) && (c <=? 126)) || (128 <=? c).
+Definition rfc_pairable (c : N) : bool := (c =? 9) || ((32 <=? c) && negb (c =? 127)).
+Fixpoint rfc_body (l acc : bytes) : option bytes :=
+  match l with
+  | [] => None
+  | 34 :: _ => Some (rev acc)
+  | 92 :: c :: r => if rfc_pairable c then rfc_body r (c :: acc) else None
+  | c :: r => if rfc_qdtext c then rfc_body r (c :: acc) else None
+  end.
+Definition rfc_unquote (arg : bytes) : option bytes :=
+  match arg with 34 :: l => rfc_body l [] | _ => None end.
+
+Definition wit_qpair : bytes := [34; 97; 92; 34; 98; 34].      (* "a\"b" *)
+Definition wit_qback : bytes := [34; 97; 92; 92; 98; 34].      (* "a\\b" *)
+Definition wit_htab : bytes := [34; 65; 44; 9; 66; 34].        (* "A,<TAB>B" *)
+
+Lemma quoted_pair_refuted :
+  exists arg t, rfc_unquote arg = Some t /\ parse_quoted_string arg (lenN arg) <> QOk t /\
+                parse_quoted_string arg (lenN arg) = QOk [97].
+Proof. exists wit_qpair, [97; 34; 98]. vm_compute. repeat split; congruence. Qed.
+
+Lemma quoted_backslash_refuted :
+  exists arg t, rfc_unquote arg = Some t /\ parse_quoted_string arg (lenN arg) <> QOk t /\
+                parse_quoted_string arg (lenN arg) = QOk [97; 98].
+Proof. exists wit_qback, [97; 92; 98]. vm_compute. repeat split; congruence. Qed.
+
+Lemma htab_refuted :
+  exists arg t, rfc_unquote arg = Some t /\ parse_quoted_string arg (lenN arg) = QFail.
+Proof. exists wit_htab, [65; 44; 9; 66]. vm_compute. split; reflexivity. Qed.
+
+(* the refutations seen through HttpHdrCc::parse *)
+Lemma cc_quoted_pair_refuted :
+  exists v st t, cc_parse v = Some st /\ d_arg v = Some wit_qpair /\ rfc_unquote wit_qpair = Some t /\
+                 isSet st CC_PRIVATE = true /\ private_ st <> t /\ private_ st = [97].
+Proof.
+  exists ([112;114;105;118;97;116;101;61] ++ wit_qpair). eexists. exists [97; 34; 98].
+  vm_compute. repeat split; try reflexivity; congruence.
+Qed.
+Lemma cc_htab_refuted :
+  exists v st t, cc_parse v = Some st /\ d_arg v = Some wit_htab /\ rfc_unquote wit_htab = Some t /\
+                 isSet st CC_NO_CACHE = false /\ cc_ok st = false.
+Proof.
+  exists ([110;111;45;99;97;99;104;101;61] ++ wit_htab). eexists. exists [65; 44; 9; 66].
+  vm_compute. repeat split; reflexivity.
+Qed.
+
+(* partial: on text without backslash, HTAB, CR, LF the code agrees with RFC quoted-string *)
+Lemma rfc_body_plain : forall X junk acc, forallb qd_char X = true ->
+  forallb (fun c => negb (c =? 9)) X = true ->
+  rfc_body (X ++ 34 :: junk) acc = Some (rev acc ++ X).
+Proof.
+  induction X as [|c X IH]; intros junk acc HX HT; cbn [app].
+  - cbn [rfc_body]. now rewrite app_nil_r.
+  - cbn [forallb] in HX, HT. apply andb_prop in HX. apply andb_prop in HT. destruct HX as [Hc HX]. destruct HT as [Ht HT].
+    assert (Hq : rfc_qdtext c = true) by (unfold qd_char, rfc_qdtext in *; lia).
+    assert (H34 : c <> 34 /\ c <> 92) by (unfold qd_char in Hc; lia).
+    assert (E : rfc_body (c :: X ++ 34 :: junk) acc = rfc_body (X ++ 34 :: junk) (c :: acc)).
+    { cbn [rfc_body]. destruct c as [|p]; [discriminate|].
+      destruct p as [p|p|]; try (rewrite Hq; reflexivity);
+      repeat (destruct p as [p|p|]; try (rewrite Hq; reflexivity); try (exfalso; lia)). }
+    rewrite E, (IH junk (c :: acc) HX HT). cbn [rev]. now rewrite <- app_assoc.
+Qed.
+
+Theorem qs_plain_exact_partial X junk :
+  forallb qd_char X = true -> forallb (fun c => negb (c =? 9)) X = true ->
+  let arg := 34 :: X ++ 34 :: junk in
+  rfc_unquote arg = Some X /\ parse_quoted_string arg (lenN arg) = QOk X.
+Proof.
+  intros HX HT arg. split.
+  - unfold arg, rfc_unquote. now rewrite (rfc_body_plain X junk [] HX HT).
+  - unfold arg. apply pqs_plain; [exact HX|]. cbn [lenN]. rewrite lenN_app. cbn [lenN]. lia.
+Qed.
